@@ -22,6 +22,9 @@ pub struct AnsiElementIterator<'a> {
 
     // Byte offset of most rightward byte processed so far
     pos: usize,
+
+    // An ESC has been seen and the sequence it started has not been completed yet.
+    in_sequence: bool,
 }
 
 #[derive(Default)]
@@ -30,8 +33,11 @@ struct Performer {
     // This is never Element::Text.
     element: Option<Element>,
 
-    // Number of text bytes seen since the last element was emitted.
-    text_length: usize,
+    // A character was printed: the parser is in its ground state.
+    printed: bool,
+
+    // A control character was executed (in the ground state or inside a sequence).
+    executed: bool,
 }
 
 #[derive(Clone, Debug, PartialEq)]
@@ -67,6 +73,7 @@ impl<'a> AnsiElementIterator<'a> {
             text_length: 0,
             start: 0,
             pos: 0,
+            in_sequence: false,
         }
     }
 
@@ -74,8 +81,21 @@ impl<'a> AnsiElementIterator<'a> {
         let mut performer = Performer::default();
         self.machine.advance(&mut performer, byte);
         self.element = performer.element;
-        self.text_length += performer.text_length;
         self.pos += 1;
+        if self.element.is_some() {
+            // (an OSC string may be terminated by the ESC that starts the next sequence)
+            self.in_sequence = byte == 0x1b;
+        } else if byte == 0x1b {
+            self.in_sequence = true;
+        } else if performer.printed || (performer.executed && !self.in_sequence) {
+            // Ground state: everything since the last element is text. This includes the bytes
+            // of a sequence that was abandoned without being completed. A control character
+            // executed inside a sequence belongs to that sequence, not to the text before it
+            // (counting it as text made text ranges end inside the sequence, or inside a
+            // multi-byte character).
+            self.in_sequence = false;
+            self.text_length = self.pos - self.start;
+        }
     }
 }
 
@@ -147,15 +167,13 @@ impl anstyle_parse::Perform for Performer {
         self.element = element;
     }
 
-    fn print(&mut self, c: char) {
-        self.text_length += c.len_utf8();
+    fn print(&mut self, _c: char) {
+        self.printed = true;
     }
 
-    fn execute(&mut self, byte: u8) {
+    fn execute(&mut self, _byte: u8) {
         // E.g. '\n'
-        if byte < 128 {
-            self.text_length += 1;
-        }
+        self.executed = true;
     }
 
     fn hook(&mut self, _params: &Params, _intermediates: &[u8], _ignore: bool, _byte: u8) {}
